@@ -362,14 +362,14 @@ def oracle(cap):
                 stack += edges[b]
         return False
 
-    # blocks the BFS visits: real-reachable from entry, entering also the entry's dummy successors
+    # blocks the BFS visits: reachable from the entry over real and dummy edges
     visited, stack = {entry}, list(blocks[entry]["succ"] + blocks[entry]["dsucc"])
     while stack:
         b = stack.pop()
         if b in visited:
             continue
         visited.add(b)
-        stack += blocks[b]["succ"]
+        stack += blocks[b]["succ"] + blocks[b]["dsucc"]
     T = {b: {} for b in blocks}  # var -> set of type tags at block entry
     for a in args:
         T[entry][a] = {argty[a]}
@@ -381,7 +381,7 @@ def oracle(cap):
             for e in blocks[b]["ev"]:
                 if e[0] == "a":
                     out[e[1]] = {e[2]}
-            succs = blocks[b]["succ"] + (blocks[b]["dsucc"] if b == entry else [])
+            succs = blocks[b]["succ"] + blocks[b]["dsucc"]
             for s in succs:
                 for x, ts in out.items():
                     cur = T[s].setdefault(x, set())
@@ -459,10 +459,14 @@ def source_undefined(body):
             use(c[1], s)
 
     def block(b, s, brk, cnt):
-        # returns the state after the block (None if nothing flows out at all)
+        # returns the state flowing out of the statement list, None when its last statement jumped; a
+        # statement behind one that jumped hangs on the block in which the jumping statement STARTED
+        # (return/break/continue: the state at the jump; an `if` whose branches both jump: at its condition)
+        prev_end = s
         for st in b:
             if s is None:
-                return None
+                s = _St(False, prev_end.defs)
+            prev_end = s
             k = st[0]
             if k == "asg":
                 s = _St(s.reach, s.defs | {st[1]})
@@ -474,10 +478,10 @@ def source_undefined(body):
                         use(x, s)
                 s = _St(s.reach, s.defs | {st[1]})
             elif k == "return":
-                s = _St(False, s.defs)
+                s = None
             elif k in ("break", "continue"):
                 (brk if k == "break" else cnt).append(s)
-                s = _St(False, s.defs)
+                s = None
             elif k == "if":
                 cond_use(st[1], s)
                 c = st[1]
@@ -512,38 +516,36 @@ def source_undefined(body):
 
 def source_type_conflicts(body):
     """Variables that reach a READ with two different types (source-level, independent of the CFG builder
-    and of the checker's BFS).  A read is examined when the checker type-checks the code it sits in: code
-    reachable over real edges, plus dead code that directly follows a `return` of the function's first
-    straight-line segment (the entry block's dummy successor) and whatever is real-reachable from there."""
+    and of the checker's BFS).  All code is examined, as the checker does: code after return/break/continue
+    and behind constant conditions continues from the state at the jump / the condition; merges from dead
+    code into live code do not count (the builder prunes those jumps).  Also returns whether the program
+    contains dead code at all (for the evidence distribution)."""
 
     class S:
-        __slots__ = ("reach", "typed", "ty")
+        __slots__ = ("reach", "ty")
 
-        def __init__(self, reach, typed, ty):
-            self.reach, self.typed, self.ty = reach, typed, {k: frozenset(v) for k, v in ty.items()}
+        def __init__(self, reach, ty):
+            self.reach, self.ty = reach, {k: frozenset(v) for k, v in ty.items()}
 
         def key(self):
-            return (self.reach, self.typed, tuple(sorted((k, tuple(sorted(v))) for k, v in self.ty.items())))
+            return (self.reach, tuple(sorted((k, tuple(sorted(v))) for k, v in self.ty.items())))
 
     def join(states):
         states = [x for x in states if x is not None]
         if not states:
             return None
         live = [x for x in states if x.reach]
-        pick = live or states
-        typed = [x for x in pick if x.typed]
         ty = {}
-        for x in typed:
+        for x in live or states:
             for k, v in x.ty.items():
                 ty[k] = ty.get(k, frozenset()) | v
-        return S(bool(live), bool(typed), ty)
+        return S(bool(live), ty)
 
     conflicts = set()
-    dead_flag = [False]  # any statement in dead code, or a constant branch condition: liveness then also flows
-    #                 over the builder's never-taken edges and this reading does not apply
+    dead_flag = [False]
 
     def use(x, st):
-        if st is not None and st.typed and len(st.ty.get(x, ())) >= 2:
+        if st is not None and len(st.ty.get(x, ())) >= 2:
             conflicts.add(x)
 
     def cond_use(c, st):
@@ -553,17 +555,20 @@ def source_type_conflicts(body):
     def setty(st, x, t):
         ty = dict(st.ty)
         ty[x] = frozenset([t])
-        return S(st.reach, st.typed, ty)
+        return S(st.reach, ty)
 
-    def block(b, st, brk, cnt, entry_seg):
-        # entry_seg: still inside the function's first straight-line segment (the entry basic block)
+    def block(b, st, brk, cnt):
+        # returns the state flowing out of the statement list, None when its last statement jumped.
+        # A statement behind one that jumped starts a new block that hangs (by a never-taken edge) on the
+        # block in which the jumping statement STARTED: for return/break/continue the state at the jump, for
+        # an `if` whose branches both jump the state at its condition.
+        prev_end = st
         for stmt in b:
             if st is None:
-                return None, entry_seg
+                st = S(False, prev_end.ty)
+            prev_end = st
             k = stmt[0]
-            if not st.reach:
-                dead_flag[0] = True
-            if k in ("if", "while") and stmt[1][0] == "const":
+            if not st.reach or (k in ("if", "while") and stmt[1][0] == "const"):
                 dead_flag[0] = True
             if k == "asg":
                 st = setty(st, stmt[1], stmt[2])
@@ -575,46 +580,40 @@ def source_type_conflicts(body):
                         use(x, st)
                 st = setty(st, stmt[1], "fn")
             elif k == "return":
-                # dead code after a return is type-checked only when the return ends the entry block
-                st = S(False, st.typed and entry_seg and st.reach, st.ty) if not (st.typed and not st.reach) else S(False, False, st.ty)
-                entry_seg = False
+                st = None
             elif k in ("break", "continue"):
                 (brk if k == "break" else cnt).append(st)
-                st = S(False, False, st.ty)
+                st = None
             elif k == "if":
-                entry_seg = False
                 cond_use(stmt[1], st)
                 c = stmt[1]
-                dead = S(False, False, st.ty)
-                st_t = st if not (c[0] == "const" and c[1] == "False") else dead
-                st_e = st if not (c[0] == "const" and c[1] == "True") else dead
-                a, _ = block(stmt[2], st_t, brk, cnt, False)
-                e, _ = block(stmt[3], st_e, brk, cnt, False)
-                st = join([a, e])
+                never = S(False, st.ty)
+                st_t = st if not (c[0] == "const" and c[1] == "False") else never
+                st_e = st if not (c[0] == "const" and c[1] == "True") else never
+                st = join([block(stmt[2], st_t, brk, cnt), block(stmt[3], st_e, brk, cnt)])
             elif k in ("while", "for"):
-                entry_seg = False
                 head = st
                 for _ in range(50):
-                    dead = S(False, False, head.ty)
+                    never = S(False, head.ty)
                     if k == "while":
                         cond_use(stmt[1], head)
                         c = stmt[1]
-                        body_in = head if not (c[0] == "const" and c[1] == "False") else dead
-                        exit_in = head if not (c[0] == "const" and c[1] == "True") else dead
+                        body_in = head if not (c[0] == "const" and c[1] == "False") else never
+                        exit_in = head if not (c[0] == "const" and c[1] == "True") else never
                     else:
                         body_in = setty(head, stmt[1], "int")
                         exit_in = head
                     b2, c2 = [], []
-                    out, _ = block(stmt[2], body_in, b2, c2, False)
+                    out = block(stmt[2], body_in, b2, c2)
                     new_head = join([st, out, *c2])
                     if new_head.key() == head.key():
                         break
                     head = new_head
                 st = join([exit_in, *b2])
-        return st, entry_seg
+        return st
 
-    init = S(True, True, {a: {t} for a, t in ARGS} | {"c": {"bool"}})
-    block(list(body), init, [], [], True)
+    init = S(True, {a: {t} for a, t in ARGS} | {"c": {"bool"}})
+    block(list(body), init, [], [])
     return conflicts, dead_flag[0]
 
 
@@ -714,9 +713,9 @@ def tie(ctx):
             )
         if not src_bad and real[0] in ("ok", "branchType"):
             src_conf, has_dead = source_type_conflicts(body)
-            k_ = "type-oracle:" + ("skipped-dead-code" if has_dead else ("conflict" if src_conf else "clean"))
+            k_ = "type-oracle:" + ("conflict" if src_conf else "clean") + (":with-dead-code" if has_dead else "")
             ctx.dist[k_] = ctx.dist.get(k_, 0) + 1
-            if not has_dead and ((real[0] == "branchType") != bool(src_conf) or (real[0] == "branchType" and real[1] not in src_conf)):
+            if ((real[0] == "branchType") != bool(src_conf) or (real[0] == "branchType" and real[1] not in src_conf)):
                 ctx.violation(
                     "input:" + src,
                     f"check() outcome {real} differs from the source-level reading: variables read with two different types = {sorted(src_conf)}",
